@@ -36,7 +36,10 @@ HARNESSES = {
     "c06_worker": {"src": [H + "c06_worker.c", M + "upipe_transfer.c", M + "upipe_worker.c"] + PIPEX + VS},
     "c06_xfer": {"src": [H + "c06_xfer.c", M + "upipe_transfer.c"] + PIPEX + VS},
     "c06_queue": {"src": [H + "c06_queue.c"] + PIPEX + VS},
-    "c01_uref": {"src": [H + "c01_uref.c"] + PIPEX},
+    # the four files that allocate descriptors (uref, dictionary, buffer, shared-area structures) with libc malloc get it
+    # routed through the harness, so that these requests can be refused too (c01_uref.c: vf_malloc)
+    "c01_uref": {"src": [H + "c01_uref.c"] + [((f, ["-Dmalloc=vf_malloc"]) if f in (R + "uref_std.c", R + "udict_inline.c", R + "ubuf_block_mem.c", R + "ubuf_mem_common.c") else f)
+                                               for f in PIPEX]},
     "c12_request": {"src": [H + "c12_request.c", T + "upipe_ts_align.c", T + "upipe_ts_sync.c", T + "upipe_ts_check.c", "@REPO@/lib/upipe-framers/upipe_auto_framer.c"] + PIPEX},
     "c14_rechunk": {"src": [H + "c14_rechunk.c", T + "upipe_ts_sync.c", T + "upipe_ts_check.c", T + "upipe_ts_align.c"] + PIPEX},
     "pipex_cat": {"src": [H + "pipex_cat.c", T + "upipe_ts_sync.c", T + "upipe_ts_check.c", T + "upipe_ts_align.c", T + "upipe_ts_psi_split.c", T + "upipe_ts_split.c",
@@ -448,13 +451,13 @@ def _c01_uref_jobs(tier):
     jobs = []
     for pool in (0, 2):
         for faults in (1, 2):
-            jobs.append(("c01_uref", ["--pool", pool, "--faults", faults, "--depth", 7 if q else 8, "--deadline", 75 if q else 840]))
+            jobs.append(("c01_uref", ["--pool", pool, "--faults", faults, "--depth", (7 if faults == 1 and pool == 2 else 6) if q else 8, "--deadline", 75 if q else 840]))
     return jobs
 
 CHECKS["C01"] = {
     "engine": "pipex", "design_ref": "DESIGN.md section 3 C01",
     "technique": "explicit-state enumeration of all control/data/release sequences up to a depth on every catalogue pipe (real code), end-state accounting by counting managers, heap-block tracker, neighbour refcounts and ASan",
-    "level_text": "Every operation sequence up to the stated depth on each catalogue pipe, with recording neighbours, for pool depths 0 and 2. After the history everything the application holds is released and the mock event loop is run until quiescent; then: every heap block allocated during the history is gone (sanitizer malloc/free hooks), the counting umem manager saw no leak / double free / overrun, no uref is live or was freed twice (counting uref manager), every sink and the probe were released exactly as often as they were used (never entered after their last release), every manager is back to its creator's single reference, and ASan saw no use after free. Below the pipes (c01_uref): every sequence of alloc_block / alloc_control / set attribute / dup / attach a duplicated buffer / detach / free over two real urefs (uref_std, udict_inline, ubuf_block_mem on the counting allocator) in which, up to twice, 'the k-th next memory request is refused' (k=1..3) is armed as an environment deviation; after every step the allocator saw no double or unknown free, holds exactly the areas of the shared buffers and dictionaries that are alive, and every surviving uref kept its attributes and payload; at the end nothing is left. Bounded, not a proof.",
+    "level_text": "Every operation sequence up to the stated depth on each catalogue pipe, with recording neighbours, for pool depths 0 and 2. After the history everything the application holds is released and the mock event loop is run until quiescent; then: every heap block allocated during the history is gone (sanitizer malloc/free hooks), the counting umem manager saw no leak / double free / overrun, no uref is live or was freed twice (counting uref manager), every sink and the probe were released exactly as often as they were used (never entered after their last release), every manager is back to its creator's single reference, and ASan saw no use after free. Below the pipes (c01_uref): every sequence of alloc_block / alloc_control / set attribute / dup / attach a duplicated buffer / detach / free over two real urefs (uref_std, udict_inline, ubuf_block_mem on the counting allocator) in which, up to twice, 'the k-th next memory request is refused' (k=1..4; requests to the umem manager and libc allocations of the uref / dictionary / buffer / shared-area descriptors alike) is armed as an environment deviation; after every step the allocator saw no double or unknown free, holds exactly the areas of the shared buffers and dictionaries that are alive, and every surviving uref kept its attributes and payload; at the end nothing is left. Bounded, not a proof.",
     "level_note": _CAT_NOTE + " With pool depth 2 a stale access to a recycled structure is invisible to ASan; the same history is run with pool depth 0.",
     "jobs": {"quick": _cat_jobs("C01", "quick") + _c01_uref_jobs("quick"), "thorough": _cat_jobs("C01", "thorough") + _c01_uref_jobs("thorough")},
     "rule": "state = one operation history (no merging); non-trivial = histories in which at least one buffer reached a sink",
